@@ -181,6 +181,12 @@ def discharge_all(ex, obls, timeout_ms=10000, seed=0, budget_s=240.0, max_retry=
         spent = o.time
         discharge(ex, o, timeout_ms, seed, want_model=True, ground=True)
         o.time += spent
+        if o.status == 'unknown' and time.time() - t0 < budget_s:
+            # a timeout is not a refutation: one more attempt with another seed and twice the time
+            spent = o.time
+            o.status = None
+            discharge(ex, o, timeout_ms * 2, seed + 17, want_model=True, ground=False)
+            o.time += spent
     return pending
 
 
